@@ -5,10 +5,9 @@ from __future__ import annotations
 import random
 from abc import ABC
 from abc import abstractmethod
-from collections import deque
 from typing import TYPE_CHECKING
-from typing import Deque
 from typing import Iterable
+from typing import Iterator
 from typing import List
 from typing import Tuple
 
@@ -112,51 +111,42 @@ class JSONPathRecursiveDescentSegment(JSONPathSegment):
         root: JSONPathNode,
         depth: int = 1,
     ) -> Iterable[JSONPathNode]:
-        """Nondeterministic node traversal."""
-        # (node, depth) tuples
-        queue: Deque[Tuple[JSONPathNode, int]] = deque()
+        """Nondeterministic node traversal.
 
-        # Visit the root node
+        Visit _root_ and its descendants in a random order such that every node
+        is visited before its descendants and array elements are visited in
+        array order. Every such order has a nonzero chance of being chosen.
+        """
+        if depth > self.env.max_recursion_depth:
+            raise JSONPathRecursionError("recursion limit exceeded", token=self.token)
+
         yield root
 
-        # Queue root's children
-        queue.extend([(child, depth) for child in _nondeterministic_children(root)])
+        # (children yet to be visited, depth of those children) for each visited
+        # node, in the order they must be visited relative to each other.
+        pending: List[Tuple[Iterator[JSONPathNode], int]] = [
+            (iter(_nondeterministic_children(root)), depth + 1)
+        ]
 
-        while queue:
-            node, depth = queue.popleft()
-            yield node
+        while pending:
+            # Randomly choose which visited node to continue with.
+            idx = random.randrange(len(pending))  # noqa: S311
+            children, _depth = pending[idx]
 
-            if depth >= self.env.max_recursion_depth:
-                raise JSONPathRecursionError(
-                    "recursion limit exceeded", token=self.token
-                )
+            try:
+                node = next(children)
+            except StopIteration:
+                pending.pop(idx)
+                continue
 
-            # Randomly choose to visit child nodes now or queue them for later?
-            visit_children = random.choice([True, False])  # noqa: S311
-
-            for child in _nondeterministic_children(node):
-                if visit_children:
-                    yield child
-
-                    # Queue grandchildren by randomly interleaving them into the
-                    # queue while maintaining queue and grandchild order.
-                    grandchildren = [
-                        (child, depth + 2)
-                        for child in _nondeterministic_children(child)
-                    ]
-
-                    queue = deque(
-                        [
-                            next(n)
-                            for n in random.sample(
-                                [iter(queue)] * len(queue)
-                                + [iter(grandchildren)] * len(grandchildren),
-                                len(queue) + len(grandchildren),
-                            )
-                        ]
+            if isinstance(node.value, (dict, list)):
+                if _depth > self.env.max_recursion_depth:
+                    raise JSONPathRecursionError(
+                        "recursion limit exceeded", token=self.token
                     )
-                else:
-                    queue.append((child, depth + 1))
+                pending.append((iter(_nondeterministic_children(node)), _depth + 1))
+
+            yield node
 
     def __str__(self) -> str:
         return f"..[{', '.join(str(itm) for itm in self.selectors)}]"
